@@ -17,6 +17,7 @@ MANIFEST = dict(
     technique="Lean 4 proof over executable model + differential correspondence (C harness vs compiled Lean driver) + flat shadow oracle")
 MODULE = "IwModel.Props.C12"
 THEOREMS = [
+    "IwModel.C12.segments_partition", "IwModel.C12.shared_refines_flat", "IwModel.C12.size_inv",
 ]
 
 PS = 4096
